@@ -62,13 +62,13 @@ FLOORS = {
                            "shared_histories": 600, "shared_loads": 1250, "shared_cache_hits": 230,
                            "memcached_loads": 1300, "memcached_client_get": 1900,
                            "memcached_client_set": 1800}},
-    "thorough": {"evaluations": 20000, "distinct": 8000,
-                 "counters": {"crash_cases": 70, "real_deaths": 60, "crash_write_events": 100,
-                              "crash_audit_events": 100, "reader_loads": 600, "trunc_offsets": 6000,
-                              "header_byte_flips": 30, "foreign_version_entries": 10,
-                              "shared_histories": 4000, "shared_loads": 10000,
-                              "shared_cache_hits": 2000, "memcached_loads": 5000,
-                              "memcached_client_get": 5000, "memcached_client_set": 1500}},
+    "thorough": {"evaluations": 27000, "distinct": 12000,
+                 "counters": {"crash_cases": 70, "real_deaths": 70, "crash_write_events": 47,
+                              "crash_audit_events": 25, "reader_loads": 290, "trunc_offsets": 3800,
+                              "header_byte_flips": 60, "foreign_version_entries": 40,
+                              "shared_histories": 4700, "shared_loads": 12000,
+                              "shared_cache_hits": 2800, "memcached_loads": 6900,
+                              "memcached_client_get": 10000, "memcached_client_set": 10000}},
 }
 
 NAME = "t.html"
@@ -624,12 +624,14 @@ def shared_history(ctx, store, case):
         caches = [FileSystemBytecodeCache(cache_dir), FileSystemBytecodeCache(cache_dir)]
         envs = [K.make_env(mk(), caches[i], K.ENV_OPTIONS[opts[i]]) for i in (0, 1)]
         probes = [0]
+        last_hit = [False]
         for i in (0, 1):  # harness-side probe: did the cache hand out code?
             orig = caches[i].get_bucket
 
             def get_bucket(*a, _o=orig, **kw):
                 b = _o(*a, **kw)
-                if getattr(b, "code", None) is not None:
+                last_hit[0] = getattr(b, "code", None) is not None
+                if last_hit[0]:
                     probes[0] += 1
                 return b
 
@@ -650,6 +652,7 @@ def shared_history(ctx, store, case):
                     ctx.violation(f"shared-cache:clear-raises:{type(e).__name__}", str(e), case)
                 continue
             i = 0 if op == "l1" else 1
+            last_hit[0] = False
             r = K.load_render(envs[i], NAME)
             ctx.ev()
             ctx.count("shared_loads")
@@ -659,8 +662,9 @@ def shared_history(ctx, store, case):
                 old_src = [expected(tname, 1 - ver, o) for o in opts]
                 if any(same(r, o) for o in old_src):
                     key = "shared-cache:stale-source"
-                elif opt != "same" and (same(r, other_env) or r[0] == "exc"):
-                    # the other environment's code: renders its output, or cannot run here
+                elif opt != "same" and (same(r, other_env) or last_hit[0]):
+                    # the cache handed out code although only the differently configured
+                    # environment can have stored it for this source
                     key = f"shared-cache:other-config-code:{opt}"
                 elif r[0] == "exc":
                     key = f"shared-cache:raises:{opt}"
